@@ -203,8 +203,11 @@ def mk_constraint(b, c):
         v = v if isinstance(v, int) else expr_to_z3(v, b)
         obj = getattr(ps, k)(task=T[c["task"]], value=v, **_omit_none(kind=c.get("mode")), **kw)
     elif k == "TaskPrecedence":
+        def _end(x):
+            # a task name, or {"group": constraint id} for a TaskGroup declared earlier
+            return b.constraints[x["group"]] if isinstance(x, dict) else T[x]
         obj = ps.TaskPrecedence(
-            task_before=T[c["before"]], task_after=T[c["after"]],
+            task_before=_end(c["before"]), task_after=_end(c["after"]),
             **_omit_none(offset=c.get("offset"), kind=c.get("mode")), **kw)
     elif k in ("TasksStartSynced", "TasksEndSynced", "TasksDontOverlap"):
         obj = getattr(ps, k)(task_1=T[c["t1"]], task_2=T[c["t2"]], **kw)
